@@ -227,6 +227,22 @@ HANDLERS = {
 }
 
 
+# multi-line statements placed right before an inserted statement: whatever their layout, the lines that follow keep their numbers
+PREFACES = {
+    'backslash': 'q2 = 1 + \\\n    2',
+    'backslash_twice': 'q2 = 1 + \\\n    2 + \\\n  3',
+    'backslash_in_brackets': 'q2 = [1, \\\n      2,\n      3]',
+    'paren': 'q2 = (1 +\n      2)',
+    'call': 'q2 = nc(1,\n        )',
+    'triple_string': 'q2 = \'\'\'a\n  b\'\'\'',
+    'triple_string_backslash': 'q2 = \'\'\'a\\\n  b\'\'\'',
+    'list_display': 'q2 = [1,\n      2,\n     ]',
+    'comment_ending_in_backslash': '# c \\\nq2 = 1',
+    'multiline_test': 'if (a == a and\n        b == b):\n    q2 = 1',
+    'backslash_before_string': 'q2 = 1, \\\n  \'\'\'x\ny\'\'\'',
+}
+
+
 def decorate(src, header, ind, n):
   """Puts n pass-through decorators (12 = two, the first spanning three lines) before the def `header`."""
   if not n:
@@ -385,12 +401,13 @@ def specs(draw, b):
   # pass-through decorators on the chain functions (index 0 = prog) and a handler around link calls
   decos = [draw(st.sampled_from([0, 0, 0, 1, 2, 2, 3, 12])) for _ in range(ncal + 1)]
   handlers = [draw(st.sampled_from([None] * 7 + sorted(HANDLERS))) for _ in range(ncal)]
+  prefaces = [draw(st.lists(st.sampled_from(sorted(PREFACES)), max_size=2)) if draw(st.integers(0, 99)) < 40 else [] for _ in range(ncal + 1)]
   # the program text is drawn last: the small choices above keep their distribution whatever the
   # size of the program that follows
   src, meta = _draw_module(draw, cfg, ncal, b.get('kbudget', 8))
   return {
       'src': src, 'meta': meta, 'ncal': ncal, 'links': links, 'fail': fail, 'excluded': excluded,
-      'marked': marked, 'input': inp, 'posseeds': posseeds, 'prefer': prefer, 'wraps': wraps, 'decos': decos, 'handlers': handlers,
+      'marked': marked, 'input': inp, 'posseeds': posseeds, 'prefer': prefer, 'wraps': wraps, 'decos': decos, 'handlers': handlers, 'prefaces': prefaces,
       'config': {'recursive': recursive, 'features': features},
   }
 
@@ -703,6 +720,10 @@ def build(spec):
         text, nm = mark_stmt(text, nextmark)
       else:
         nm = nextmark
+      pf = (spec.get('prefaces') or [[]] * (level + 1))[level]
+      if pf:
+        # (added after marking: marking re-prints the statement on one line)
+        text = '\n'.join([PREFACES[k] for k in pf] + [text])
       new_src, nlines = insert_before(src, ln, text)
       binfo['tries'] += 1
       try:
@@ -744,7 +765,8 @@ def build(spec):
   for i in range(1, len(chain)):
     src = decorate(src, 'def k%d(' % i, '', decos[i])
   case = {'src': src, 'input': inp, 'chain': chain, 'links': [lk['kind'] for lk in spec['links']], 'config': spec['config'],
-          'marked': spec['marked'], 'handlers': list(spec.get('handlers') or []), 'decos': list(decos)}
+          'marked': spec['marked'], 'handlers': list(spec.get('handlers') or []), 'decos': list(decos),
+          'prefaces': sorted(set(k for pf in (spec.get('prefaces') or []) for k in pf))}
   return case, 'ok', binfo
 
 
@@ -835,6 +857,17 @@ def _features(names):
   return fs or None
 
 
+def _same_line_text(file_line, reported):
+  """The reported text is the file line; a line ending in a backslash continuation is shown joined with its
+  continuation rows (calibration: the text is a display string, the property is about file / function / line)."""
+  a, b = file_line.strip(), reported.strip()
+  if a == b:
+    return True
+  if a.endswith('\\'):
+    return ' '.join(b.split()).startswith(' '.join(a[:-1].split()))
+  return False
+
+
 def check_source_maps(made, mod_file, src_lines, tree, marker_line, fails, info):
   nent = 0
   for name, conv in made:
@@ -863,7 +896,7 @@ def check_source_maps(made, mod_file, src_lines, tree, marker_line, fails, info)
         info['srcmap_foreign_keys'] = info.get('srcmap_foreign_keys', 0) + 1
         nent -= 1
         continue
-      if not (0 < ol <= len(src_lines)) or src_lines[ol - 1].strip() != (origin.source_code_line or '').strip():
+      if not (0 < ol <= len(src_lines)) or not _same_line_text(src_lines[ol - 1], origin.source_code_line or ''):
         det['source_code_line'] = origin.source_code_line
         fails.append(('srcmap:source_code_line', det))
         return nent
@@ -1063,6 +1096,7 @@ def shard(ctx, acc):
                'features=' + '+'.join(case['config']['features']), 'marked=%s' % case['marked']]
     classes += ['link=' + k for k in set(case['links'])]
     classes += ['handler=' + h for h in set(case.get('handlers') or []) if h]
+    classes += ['preface=' + k for k in case.get('prefaces') or []]
     classes += ['decorators=%d' % d for d in set(case.get('decos') or []) if d]
     if info.get('cut'):
       classes.append('traceback_ends_in_handler_of_link_call')
